@@ -273,6 +273,12 @@ def model_save_quantized_weights(model, filename=None, custom_objects={}):
       elif any(isinstance(layer, t) for t in [QSimpleRNN, QLSTM, QGRU]):
         qs = layer.get_quantizers()[:-1]
         ws = layer.get_weights()
+      elif layer.__class__.__name__ == "QBidirectional":
+        # each direction lists [kernel, recurrent, bias, state] quantizers; the
+        # state quantizer has no weight.
+        qs = (list(layer.forward_layer.get_quantizers()[:-1]) +
+              list(layer.backward_layer.get_quantizers()[:-1]))
+        ws = layer.get_weights()
       elif layer.__class__.__name__ == "QBatchNormalization":
         # gamma / beta only exist with scale / center: keep the quantizers
         # aligned with the weights that are present.
